@@ -3,6 +3,10 @@ package rules
 import (
 	"bytes"
 	"fmt"
+	"go/ast"
+	"go/parser"
+	"go/token"
+	"regexp"
 	"os"
 	"os/exec"
 	"path/filepath"
@@ -22,6 +26,7 @@ type Mutant struct {
 	File     string // repo-relative
 	Old, New string // exact substring replacement (Old must occur exactly once)
 	Patch    string // alternatively: a unified diff file (seeded changes)
+	Rename   *Rename // alternatively: rename a local identifier inside one function (negative controls)
 	Rule     string // rule expected to fire
 	Silent   bool   // negative control: a behaviour-preserving edit; the whole check must stay silent
 	Note     string
@@ -42,6 +47,51 @@ func Mutants(prop string) []Mutant {
 	return out
 }
 
+// Rename describes a behaviour-preserving renaming of a local identifier within one Go function.
+type Rename struct{ Func, From, To string }
+
+// applyRename rewrites whole-word occurrences of From inside the text of function Func of the file.
+func applyRename(src string, rn *Rename) (string, error) {
+	fset := token.NewFileSet()
+	f, err := parser.ParseFile(fset, "x.go", src, parser.ParseComments)
+	if err != nil {
+		return "", err
+	}
+	for _, d := range f.Decls {
+		fd, ok := d.(*ast.FuncDecl)
+		if !ok || fd.Body == nil {
+			continue
+		}
+		name := fd.Name.Name
+		if fd.Recv != nil && len(fd.Recv.List) == 1 {
+			t := fd.Recv.List[0].Type
+			if st, ok := t.(*ast.StarExpr); ok {
+				t = st.X
+			}
+			if ix, ok := t.(*ast.IndexExpr); ok {
+				t = ix.X
+			}
+			if id, ok := t.(*ast.Ident); ok {
+				name = id.Name + "." + name
+			}
+		}
+		if name != rn.Func {
+			continue
+		}
+		a, b := fset.Position(fd.Pos()).Offset, fset.Position(fd.End()).Offset
+		re := regexp.MustCompile(`\b` + regexp.QuoteMeta(rn.From) + `\b`)
+		body := src[a:b]
+		if !re.MatchString(body) {
+			return "", fmt.Errorf("identifier %s does not occur in %s", rn.From, rn.Func)
+		}
+		if regexp.MustCompile(`\b` + regexp.QuoteMeta(rn.To) + `\b`).MatchString(body) {
+			return "", fmt.Errorf("identifier %s already occurs in %s", rn.To, rn.Func)
+		}
+		return src[:a] + re.ReplaceAllString(body, rn.To) + src[b:], nil
+	}
+	return "", fmt.Errorf("function %s not found", rn.Func)
+}
+
 // ApplyMutant installs the overlay for one mutant.
 func ApplyMutant(c *ctx.Ctx, prop, id string) error {
 	for _, m := range mutants {
@@ -50,6 +100,18 @@ func ApplyMutant(c *ctx.Ctx, prop, id string) error {
 		}
 		if m.Patch != "" {
 			return applyPatchOverlay(c, m.Patch)
+		}
+		if m.Rename != nil {
+			b, err := c.ReadFile(m.File)
+			if err != nil {
+				return err
+			}
+			out, err := applyRename(string(b), m.Rename)
+			if err != nil {
+				return fmt.Errorf("mutant %s: %v (the repository was edited; self-test skipped)", id, err)
+			}
+			c.Overlay[filepath.Join(c.Repo, m.File)] = []byte(out)
+			return nil
 		}
 		b, err := c.ReadFile(m.File)
 		if err != nil {
